@@ -144,15 +144,25 @@ class FlagTables:
                             f.write("typedef struct {\n char flag[20];\n short bit;\n char label[30];\n char description[100];\n} maskbits;\n\n")
                             f.write("typedef struct {\n char flag[20];\n char alias[20];\n} maskalias;\n\n")
                             for g, d in groups.items():
-                                for lab, b in d.items():
-                                    f.write('maskbits %s %d %s "a description"\n' % (g, b, lab))
-                            for a, g in aliases.items():
-                                f.write("maskalias %s %s\n" % (g, a))
-                        table = m.set_maskbits(maskbits_file=fn)
+                                f.write("# group %s\n" % g)
+                                for j, (lab, b) in enumerate(d.items()):
+                                    # rows indented, tab-separated or in lower-case structure name: all admissible layouts
+                                    lead = ["", "  ", "\t"][(fi + j) % 3]
+                                    f.write('%smaskbits %s %d %s "a description"\n' % (lead, g, b, lab))
+                            for k, (a, g) in enumerate(aliases.items()):
+                                f.write("%smaskalias %s %s\n" % ("    " if k % 2 else "", g, a))
+                        try:
+                            table = m.set_maskbits(maskbits_file=fn)
+                        except Exception as e:
+                            note("set_maskbits:table", "set_maskbits raised %s: %s" % (type(e).__name__, e), dict(groups=groups, aliases=aliases))
+                            continue
                     want = {g: dict(d) for g, d in groups.items()}
                     for a, g in aliases.items():
                         want[a] = dict(groups[g])
-                    got = {g: {l: int(b) for l, b in d.items()} for g, d in table.items()}
+                    try:
+                        got = {g: {l: int(b) for l, b in d.items()} for g, d in table.items()}
+                    except Exception as e:
+                        got = "unreadable table: %s" % e
                     count += 1
                     if got != want:
                         note("set_maskbits:table", "table differs from file", dict(groups=groups, aliases=aliases))
